@@ -23,14 +23,14 @@ TUnq == Raw.unq
 TFlagVanished == Raw.flag_vanished
 Traces  == Raw.traces
 
-VARIABLES cfg, dir, ac, tmp, pc, tq, wq, opn, wrote, done, touched, touchedRun, clean, synced,
+VARIABLES cfg, dir, ac, tmp, pc, tq, wq, opn, wrote, done, cfgDone, touched, touchedRun, clean, synced,
           nchg, ncrash, nsync, hist,
           tid, l, bad, conform, fsok, fin
 
 S == INSTANCE SyncDeps WITH Cfgs <- TCfgs, Names <- TNames, Unq <- TUnq, TornVals <- {},
                             AtomicWrite <- TAtomic, FlagVanished <- TFlagVanished, MaxChanges <- 0, MaxCrashes <- 0, MaxSyncs <- 0
 
-tvars == <<cfg, dir, ac, tmp, pc, tq, wq, opn, wrote, done, touched, touchedRun, clean, synced,
+tvars == <<cfg, dir, ac, tmp, pc, tq, wq, opn, wrote, done, cfgDone, touched, touchedRun, clean, synced,
            nchg, ncrash, nsync, hist, tid, l, bad, conform, fsok, fin>>
 
 T  == Traces[tid]
@@ -38,17 +38,17 @@ Ev == T.events[l]
 C  == TCfgs[cfg]
 
 \* the property clauses, evaluated on explicit values so that they can be applied to the next state
-FirstFailing(pcv, cfgv, donev, touchedv, runv, cleanv, wrotev, acv, syncedv) ==
+FirstFailing(pcv, cfgv, donev, touchedv, runv, cleanv, wrotev, acv, syncedv, cfgDonev) ==
   LET c == TCfgs[cfgv] IN
   IF pcv # "finish" THEN ""
   ELSE IF \E n \in TNames : c.vv[n] # donev[n] /\ n \notin touchedv THEN "NoLostTrigger"
   ELSE IF cleanv /\ \E n \in TNames : c.vv[n] = donev[n] /\ n \in runv THEN "NoSpurious"
-  ELSE IF cleanv /\ syncedv /\ (\A n \in TNames : c.vv[n] = donev[n]) /\ (runv # {} \/ wrotev) THEN "Idempotent"
+  ELSE IF cleanv /\ syncedv /\ (\A n \in TNames : c.vv[n] = donev[n]) /\ (runv # {} \/ (wrotev /\ cfgv = cfgDonev)) THEN "Idempotent"
   ELSE IF ~S!SameContent(c, acv) THEN "Recorded"
   ELSE ""
 
 Judge == bad' = IF bad # "" THEN bad
-                ELSE LET f == FirstFailing(pc', cfg', done', touched', touchedRun', clean', wrote', ac', synced')
+                ELSE LET f == FirstFailing(pc', cfg', done', touched', touchedRun', clean', wrote', ac', synced', cfgDone')
                      IN IF f = "" THEN "" ELSE f
 
 Frozen == UNCHANGED <<opn, nchg, ncrash, nsync, hist, tid, fin>>
@@ -59,7 +59,7 @@ Init ==
   /\ cfg = 1
   /\ dir = FALSE /\ ac = S!NoFile /\ tmp = S!NoFile
   /\ pc = "idle" /\ tq = <<>> /\ wq = <<>> /\ opn = 0 /\ wrote = FALSE
-  /\ done = [n \in TNames |-> S!Absent] /\ touched = {} /\ touchedRun = {} /\ clean = TRUE /\ synced = FALSE
+  /\ done = [n \in TNames |-> S!Absent] /\ cfgDone = 0 /\ touched = {} /\ touchedRun = {} /\ clean = TRUE /\ synced = FALSE
   /\ nchg = 0 /\ ncrash = 0 /\ nsync = 0 /\ hist = <<>>
 
 Consume == l <= Len(T.events) /\ l' = l + 1
@@ -67,19 +67,19 @@ Consume == l <= Len(T.events) /\ l' = l + 1
 ECfg ==
   /\ Consume /\ Ev.e = "cfg" /\ cfg' = Ev.i
   /\ conform' = (conform /\ pc = "idle")
-  /\ UNCHANGED <<dir, ac, tmp, pc, tq, wq, wrote, done, touched, touchedRun, clean, fsok>>
+  /\ UNCHANGED <<dir, ac, tmp, pc, tq, wq, wrote, done, cfgDone, touched, touchedRun, clean, fsok>>
 
 EStart ==
   /\ Consume /\ Ev.e = "start"
   /\ pc' = IF dir THEN "load" ELSE "mkdir"
   /\ wrote' = FALSE /\ touchedRun' = {} /\ tq' = <<>> /\ wq' = <<>>
   /\ conform' = (conform /\ pc = "idle")
-  /\ UNCHANGED <<cfg, dir, ac, tmp, done, touched, clean, fsok>>
+  /\ UNCHANGED <<cfg, dir, ac, tmp, done, cfgDone, touched, clean, fsok>>
 
 EMkdir ==
   /\ Consume /\ Ev.e = "mkdir" /\ dir' = TRUE /\ pc' = "load"
   /\ conform' = (conform /\ pc = "mkdir")
-  /\ UNCHANGED <<cfg, ac, tmp, tq, wq, wrote, done, touched, touchedRun, clean, fsok>>
+  /\ UNCHANGED <<cfg, ac, tmp, tq, wq, wrote, done, cfgDone, touched, touchedRun, clean, fsok>>
 
 ERead ==   \* a read of auto.conf: the Load step, or the comparison before writing
   /\ Consume /\ Ev.e = "read"
@@ -87,21 +87,21 @@ ERead ==   \* a read of auto.conf: the Load step, or the comparison before writi
      ELSE IF pc = "touch" /\ tq = <<>>
        THEN pc' = (IF S!SameContent(C, ac) THEN "finish" ELSE "open") /\ tq' = tq /\ conform' = conform
        ELSE pc' = pc /\ tq' = tq /\ conform' = FALSE
-  /\ UNCHANGED <<cfg, dir, ac, tmp, wq, wrote, done, touched, touchedRun, clean, fsok>>
+  /\ UNCHANGED <<cfg, dir, ac, tmp, wq, wrote, done, cfgDone, touched, touchedRun, clean, fsok>>
 
 ETouch ==
   /\ Consume /\ Ev.e = "touch"
   /\ touched' = touched \cup {Ev.n} /\ touchedRun' = touchedRun \cup {Ev.n}
   /\ conform' = (conform /\ pc = "touch" /\ tq # <<>> /\ Head(tq) = Ev.n)
   /\ tq' = IF tq # <<>> THEN Tail(tq) ELSE tq
-  /\ UNCHANGED <<cfg, dir, ac, tmp, pc, wq, wrote, done, clean, fsok>>
+  /\ UNCHANGED <<cfg, dir, ac, tmp, pc, wq, wrote, done, cfgDone, clean, fsok>>
 
 EOpen ==
   /\ Consume /\ Ev.e = "open"
   /\ IF Ev.f = "ac" THEN ac' = S!Empty /\ tmp' = tmp ELSE tmp' = S!Empty /\ ac' = ac
   /\ wrote' = TRUE /\ wq' = S!Content(C) /\ pc' = "write"
   /\ conform' = (conform /\ pc = "open" /\ Ev.f = (IF TAtomic THEN "tmp" ELSE "ac"))
-  /\ UNCHANGED <<cfg, dir, tq, done, touched, touchedRun, clean, fsok>>
+  /\ UNCHANGED <<cfg, dir, tq, done, cfgDone, touched, touchedRun, clean, fsok>>
 
 AppendTo(f, ln) ==
   IF f = "ac" THEN ac' = [ac EXCEPT !.ex = TRUE, !.lines = Append(@, ln)] /\ tmp' = tmp
@@ -111,45 +111,45 @@ EWrite ==
   /\ Consume /\ Ev.e = "write" /\ AppendTo(Ev.f, Ev.ln)
   /\ conform' = (conform /\ pc = "write" /\ wq # <<>> /\ Head(wq) = Ev.ln)
   /\ wq' = IF wq # <<>> THEN Tail(wq) ELSE wq
-  /\ UNCHANGED <<cfg, dir, pc, tq, wrote, done, touched, touchedRun, clean, fsok>>
+  /\ UNCHANGED <<cfg, dir, pc, tq, wrote, done, cfgDone, touched, touchedRun, clean, fsok>>
 
 ETorn ==   \* the crash tore the line: what is on disk parses to Ev.ln (or to nothing)
   /\ Consume /\ Ev.e = "torn"
   /\ IF Ev.ln = <<>> THEN UNCHANGED <<ac, tmp>> ELSE AppendTo(Ev.f, Ev.ln)
-  /\ UNCHANGED <<cfg, dir, pc, tq, wq, wrote, done, touched, touchedRun, clean, fsok, conform>>
+  /\ UNCHANGED <<cfg, dir, pc, tq, wq, wrote, done, cfgDone, touched, touchedRun, clean, fsok, conform>>
 
 EReplace ==
   /\ Consume /\ Ev.e = "replace" /\ ac' = tmp /\ tmp' = S!NoFile /\ pc' = "finish"
   /\ conform' = (conform /\ pc = "write" /\ wq = <<>> /\ TAtomic)
-  /\ UNCHANGED <<cfg, dir, tq, wq, wrote, done, touched, touchedRun, clean, fsok>>
+  /\ UNCHANGED <<cfg, dir, tq, wq, wrote, done, cfgDone, touched, touchedRun, clean, fsok>>
 
 ECrash ==
   /\ Consume /\ Ev.e = "crash" /\ pc' = "idle" /\ clean' = FALSE
-  /\ UNCHANGED <<cfg, dir, ac, tmp, tq, wq, wrote, done, touched, touchedRun, fsok, conform>>
+  /\ UNCHANGED <<cfg, dir, ac, tmp, tq, wq, wrote, done, cfgDone, touched, touchedRun, fsok, conform>>
 
 ERet ==    \* sync_deps() is about to return normally: the property is judged here
   /\ Consume /\ Ev.e = "ret" /\ pc' = "finish"
   /\ conform' = (conform /\ (pc = "finish" \/ (pc = "write" /\ wq = <<>> /\ ~TAtomic)))
-  /\ UNCHANGED <<cfg, dir, ac, tmp, tq, wq, wrote, done, touched, touchedRun, clean, fsok>>
+  /\ UNCHANGED <<cfg, dir, ac, tmp, tq, wq, wrote, done, cfgDone, touched, touchedRun, clean, fsok>>
 
 EDone ==
   /\ Consume /\ Ev.e = "done" /\ pc' = "idle"
-  /\ done' = C.vv /\ touched' = {} /\ clean' = TRUE /\ synced' = TRUE
+  /\ done' = C.vv /\ cfgDone' = cfg /\ touched' = {} /\ clean' = TRUE /\ synced' = TRUE
   /\ UNCHANGED <<cfg, dir, ac, tmp, tq, wq, wrote, touchedRun, fsok, conform>>
 
 EDisk ==   \* what is really on disk must be what the file-system model tracked
   /\ Consume /\ Ev.e = "disk"
   /\ fsok' = (fsok /\ ac = Ev.ac /\ dir = Ev.dir)
-  /\ UNCHANGED <<cfg, dir, ac, tmp, pc, tq, wq, wrote, done, touched, touchedRun, clean, conform>>
+  /\ UNCHANGED <<cfg, dir, ac, tmp, pc, tq, wq, wrote, done, cfgDone, touched, touchedRun, clean, conform>>
 
 EOther ==  \* an operation the specification does not know
   /\ Consume /\ Ev.e = "other" /\ conform' = FALSE
-  /\ UNCHANGED <<cfg, dir, ac, tmp, pc, tq, wq, wrote, done, touched, touchedRun, clean, fsok>>
+  /\ UNCHANGED <<cfg, dir, ac, tmp, pc, tq, wq, wrote, done, cfgDone, touched, touchedRun, clean, fsok>>
 
 Verdict ==
   /\ l = Len(T.events) + 1 /\ ~fin /\ fin' = TRUE
   /\ PrintT(<<"V", T.id, bad, conform, fsok>>)
-  /\ UNCHANGED <<cfg, dir, ac, tmp, pc, tq, wq, opn, wrote, done, touched, touchedRun, clean,
+  /\ UNCHANGED <<cfg, dir, ac, tmp, pc, tq, wq, opn, wrote, done, cfgDone, touched, touchedRun, clean,
                  nchg, ncrash, nsync, hist, tid, l, bad, conform, fsok, synced>>
 
 KeepSynced == Ev.e # "done" => synced' = synced
